@@ -2960,6 +2960,143 @@ theorem apply_world (w : World K) (h : w.Inv) (sid : Nat) (f : Func K) (out : Op
         subst hok
         cases e <;> simp only [World.view, List.getElem?_set_self hlt, Option.map_some] <;> rfl
 
+theorem wf_mapFrames {F G : Type} (g : F → G) (s : Store K F) (h : WF s) : WF (s.mapFrames g) := by
+  obtain ⟨h1, h2, h3⟩ := h
+  refine ⟨by simpa [Store.mapFrames] using h1, ?_, h3⟩
+  intro hne
+  apply h2
+  intro h0
+  apply hne
+  simp [Store.mapFrames, h0]
+
+theorem applyNewVals_length (w : World K) (f : Func K) (s : Store K Nat) (h : WF s) :
+    (applyNewVals w f s).length = s.frames.length := by
+  simp [applyNewVals, h.1]
+
+/-- the storage operations a world operation amounts to for storage `sid`, now including
+`copy`/`apply` *into* `sid` (a session start and, if accepted, one append per frame of the
+source, carrying the transformed data of the source's frames at this moment) -/
+def projectL (w : World K) (sid : Nat) (op : Op K) : List (SOp K (List K)) :=
+  match op with
+  | .apply src f (some out) =>
+    if out = sid ∧ src ≠ sid then
+      match w.stores[src]?, w.view sid with
+      | some s, some ov => applyOps (s.mapFrames w.deref) f.info (applyNewVals w f s) ov
+      | _, _ => []
+    else []
+  | op => (project w sid op).toList
+
+/-- **one world step, seen from storage `sid`, every safe operation** -/
+theorem world_refines_store_all (w : World K) (op : Op K) (sid : Nat) (h : w.Inv) (hwf : w.AllWF)
+    (hsafe : op.safe = true) (hlt : sid < w.stores.length) :
+    (step w op).1.view sid = (w.view sid).map (fun sv => srun sv (projectL w sid op)) := by
+  by_cases hap : ∃ src f, op = .apply src f (some sid)
+  · obtain ⟨src, f, rfl⟩ := hap
+    obtain ⟨o1, ho1⟩ : ∃ s, w.stores[sid]? = some s := ⟨w.stores[sid], List.getElem?_eq_getElem hlt⟩
+    have hview : w.view sid = some (o1.mapFrames w.deref) := by simp [World.view, ho1]
+    by_cases hsrc : src = sid
+    · subst hsrc
+      simp [step, ho1, projectL, srun, hview]
+    · cases hs : w.stores[src]? with
+      | none => simp [step, hs, projectL, srun, hview]
+      | some s =>
+        have hws : WF s := hwf s (List.mem_of_getElem? hs)
+        have hlen := applyNewVals_length w f s hws
+        -- id level: the result of `applyTo` is a run of `out`'s state machine
+        have hid := applyTo_some_srun s hws f.info
+          (List.range' w.heap.length (applyNewVals w f s).length) (by simp [hlen]) o1
+        have hne : (some sid : Option Nat) ≠ some src := by
+          intro h0; cases h0; exact hsrc rfl
+        obtain ⟨e1, _, tgt, htgt, e3⟩ := apply_world w h src f (some sid) s hs hne (some o1)
+          (by simp [ho1]) _ hid
+        simp only at htgt
+        subst htgt
+        rw [e3 (Or.inr (by simp))]
+        -- value level: the same run on the views
+        have hval := applyTo_some_srun (s.mapFrames w.deref) (wf_mapFrames _ s hws) f.info
+          (applyNewVals w f s) (by simp [Store.mapFrames, hlen]) (o1.mapFrames w.deref)
+        simp only [Option.map_some] at e1
+        rw [hval] at e1
+        rw [hview]
+        simp only [Option.map_some, projectL, hs, hview]
+        rw [if_pos ⟨trivial, hsrc⟩]
+        exact e1.symm
+  · have hna : ∀ src f, op ≠ .apply src f (some sid) := fun src f h0 => hap ⟨src, f, h0⟩
+    rw [world_refines_store w op sid h hsafe hna hlt]
+    congr 1
+    funext sv
+    have hp : projectL w sid op = (project w sid op).toList := by
+      cases op with
+      | apply src f out =>
+        cases out with
+        | none => rfl
+        | some o =>
+          have : o ≠ sid := by intro h0; subst h0; exact hna src f rfl
+          simp [projectL, project, this]
+      | _ => rfl
+    rw [hp]
+    cases project w sid op with
+    | none => simp [srun]
+    | some sop => simp [srun]
+
+/-- the operations storage `sid` sees along a world operation sequence (all safe operations) -/
+def wtraceL (sid : Nat) : World K → List (Op K) → List (SOp K (List K))
+  | _, [] => []
+  | w, op :: ops => projectL w sid op ++ wtraceL sid (step w op).1 ops
+
+theorem srun_append {F : Type} (o : Store K F) (a b : List (SOp K F)) :
+    srun o (a ++ b) = srun (srun o a) b := by
+  simp [srun, List.foldl_append]
+
+/-- **C20 in the world, EVERY safe operation sequence** (everything except `from_fields` and
+direct writes into `storage.data`): what a reader sees of storage `sid` is the storage state
+machine run on the operations addressed to it - sessions, appends carrying the source's data at
+that moment, clears, mode changes, and `copy`/`apply` into it carrying the transformed frames of
+their source at that moment. -/
+theorem world_run_refines_all (ops : List (Op K)) :
+    ∀ (w : World K) (sid : Nat), w.Inv → w.AllWF → sid < w.stores.length →
+      (∀ op ∈ ops, op.safe = true) →
+      (run w ops).view sid = (w.view sid).map (fun sv => srun sv (wtraceL sid w ops)) := by
+  induction ops with
+  | nil => intro w sid _ _ _ _; simp [run, wtraceL, srun]
+  | cons op ops ih =>
+    intro w sid h hwf hlt hops
+    have h1 := hops op (by simp)
+    have hstep := world_refines_store_all w op sid h hwf h1 hlt
+    have := ih (step w op).1 sid (inv_step w op h1 h) (allwf_step w op hwf)
+      (stores_length_step w op sid hlt) (fun o ho => hops o (by simp [ho]))
+    simp only [run, List.foldl_cons] at this ⊢
+    rw [this, hstep]
+    simp only [wtraceL, Option.map_map]
+    congr 1
+    funext sv
+    simp only [Function.comp, srun_append]
+
+/-- **the property statement for a storage created in any reachable world**: after any safe
+continuation, reading the storage (`items()`, `storage[i]`) returns the specification log of the
+operations it saw - the appended (time, data-at-that-moment) pairs of the surviving sessions -/
+theorem world_reads_appended (w : World K) (h : w.Inv) (hwf : w.AllWF) (m : Mode)
+    (ops : List (Op K)) (hops : ∀ op ∈ ops, op.safe = true) :
+    let w0 := (step w (.newStore m)).1
+    let sid := w.stores.length
+    ∃ sv, (run w0 ops).view sid = some sv ∧
+      sv = srun (Store.new m) (wtraceL sid w0 ops) ∧
+      sv.contents = (runBoth (Store.new m) (Spec.init m) (wtraceL sid w0 ops)).2.log ∧
+      ∃ l, items sv = .ok l ∧
+        l.map (fun r => (r.1, r.2.2)) = (runBoth (Store.new m) (Spec.init m) (wtraceL sid w0 ops)).2.log := by
+  intro w0 sid
+  have h0 : w0.Inv := inv_step w (.newStore m) rfl h
+  have hwf0 : w0.AllWF := allwf_step w (.newStore m) hwf
+  have hlt : sid < w0.stores.length := by simp [w0, sid, step]
+  have hv0 : w0.view sid = some (Store.new m) := by
+    simp [w0, sid, step, World.view, Store.mapFrames, Store.new]
+  have := world_run_refines_all ops w0 sid h0 hwf0 hlt hops
+  rw [hv0] at this
+  simp only [Option.map_some] at this
+  refine ⟨_, this, rfl, ?_⟩
+  have hr := read_returns_appended_in_order (K := K) (F := List K) m (wtraceL sid w0 ops)
+  exact ⟨hr.1, hr.2.1⟩
+
 end world
 
 /-! ### `from_collection` -/
